@@ -657,6 +657,163 @@ func genDegenerate(r *lib.Rng) *node {
 	}
 }
 
+func gcd(a, b int) int {
+	if a < 0 {
+		a = -a
+	}
+	if b < 0 {
+		b = -b
+	}
+	for b != 0 {
+		a, b = b, a%b
+	}
+	return a
+}
+
+// lattice points of a closed ring's boundary, edge by edge (each vertex once)
+func boundaryLattice(ring []xy) []xy {
+	var out []xy
+	for i := 0; i+1 < len(ring); i++ {
+		u, v := ring[i], ring[i+1]
+		dx, dy := int(v.x-u.x), int(v.y-u.y)
+		g := gcd(dx, dy)
+		if g == 0 {
+			continue
+		}
+		for t := 0; t < g; t++ {
+			out = append(out, xy{u.x + float64(t*dx/g), u.y + float64(t*dy/g)})
+		}
+	}
+	return out
+}
+
+// targeted class: a member nested in (or next to) another member and touching its boundary in
+// exactly one point (or two, or none); the inner member has fewer / as many / more segments than
+// the outer one (the outer may carry extra collinear vertices); both member orders
+func genNestedTouch(r *lib.Rng) *node {
+	s := r.Range(6, 10)
+	var outer []xy
+	switch r.Intn(4) {
+	case 0:
+		outer = []xy{{0, 0}, {float64(s), 0}, {0, float64(s)}, {0, 0}}
+	case 1:
+		outer = genBox(0, 0, s, r.Range(5, s))
+	case 2:
+		outer = []xy{{0, 0}, {float64(s), 0}, {float64(s), float64(s)}, {0, 0}}
+	default:
+		for tries := 0; tries < 50; tries++ {
+			outer = genTri(r, 0, s)
+			if math.Abs(cross(outer[0], outer[1], outer[2])) >= 30 {
+				break
+			}
+		}
+	}
+	lat := boundaryLattice(outer)
+	if r.Chance(1, 2) {
+		// extra collinear vertices on the outer ring: more segments, same point set
+		outer = append(append([]xy(nil), lat...), lat[0])
+	}
+	var inside []xy
+	for x := 0; x <= s; x++ {
+		for y := 0; y <= s; y++ {
+			if p := (xy{float64(x), float64(y)}); strictlyInsideConvex(outer, p) || insideByCross(outer, p) {
+				inside = append(inside, p)
+			}
+		}
+	}
+	mode := r.Intn(8) // 0..4 one touch point, 5 two touch points, 6 none (fast case), 7 outside touching
+	k := r.Range(2, 5)
+	var pts []xy
+	seen := map[xy]bool{}
+	add := func(p xy) {
+		if !seen[p] {
+			seen[p] = true
+			pts = append(pts, p)
+		}
+	}
+	if len(inside) < 3 {
+		return genMultiPoly(r)
+	}
+	touch := lat[r.Intn(len(lat))]
+	switch {
+	case mode <= 4:
+		add(touch)
+	case mode == 5:
+		add(touch)
+		add(lat[r.Intn(len(lat))])
+	case mode == 7:
+		add(touch)
+	}
+	for tries := 0; len(pts) < k+1 && tries < 60; tries++ {
+		if mode == 7 {
+			p := xy{float64(r.Range(-4, s+4)), float64(r.Range(-4, s+4))}
+			if !insideByCross(outer, p) && !onRing(outer, p) {
+				add(p)
+			}
+		} else {
+			add(inside[r.Intn(len(inside))])
+		}
+	}
+	if len(pts) < 3 {
+		return genMultiPoly(r)
+	}
+	// order around the centroid: a simple ring most of the time
+	var cx, cy float64
+	for _, p := range pts {
+		cx += p.x
+		cy += p.y
+	}
+	cx /= float64(len(pts))
+	cy /= float64(len(pts))
+	sort.Slice(pts, func(i, j int) bool {
+		return math.Atan2(pts[i].y-cy, pts[i].x-cx) < math.Atan2(pts[j].y-cy, pts[j].x-cx)
+	})
+	inner := closeRing(pts)
+	a := &node{kind: "Y", rings: [][]xy{rotateRing(outer, r.Intn(len(outer)-1))}}
+	b := &node{kind: "Y", rings: [][]xy{rotateRing(inner, r.Intn(len(inner)-1))}}
+	n := &node{kind: "MY"}
+	if r.Bool() {
+		n.kids = []*node{a, b}
+	} else {
+		n.kids = []*node{b, a}
+	}
+	if r.Chance(1, 6) {
+		n.kids = append(n.kids, &node{kind: "Y", rings: [][]xy{shift(genTri(r, 0, 3), float64(s+2), 0)}})
+	}
+	return n
+}
+
+// strictly inside a convex ring of either orientation, tolerating collinear extra vertices
+func insideByCross(ring []xy, p xy) bool {
+	pos, neg := false, false
+	for i := 0; i+1 < len(ring); i++ {
+		if ring[i] == ring[i+1] {
+			continue
+		}
+		c := cross(ring[i], ring[i+1], p)
+		if c == 0 {
+			return false
+		}
+		if c > 0 {
+			pos = true
+		} else {
+			neg = true
+		}
+	}
+	return pos != neg
+}
+
+func onRing(ring []xy, p xy) bool {
+	for i := 0; i+1 < len(ring); i++ {
+		u, v := ring[i], ring[i+1]
+		if cross(u, v, p) == 0 && math.Min(u.x, v.x) <= p.x && p.x <= math.Max(u.x, v.x) &&
+			math.Min(u.y, v.y) <= p.y && p.y <= math.Max(u.y, v.y) {
+			return true
+		}
+	}
+	return false
+}
+
 func genPointNode(r *lib.Rng) *node {
 	if r.Chance(1, 5) {
 		return &node{kind: "P"}
@@ -963,7 +1120,9 @@ func main() {
 		r := root.Fork()
 		var base *node
 		class := ""
-		switch group % 15 {
+		switch group % 16 {
+		case 15:
+			class, base = "nested_touch", genNestedTouch(r)
 		case 12, 13:
 			class, base = "touch_graph", genTouchGraph(r)
 		case 14:
